@@ -19,6 +19,7 @@ cp SEED_NOTES.md "$dst/NOTES.md" 2>/dev/null
 run=$(grep -ho 'func Test[A-Za-z0-9_]*' $demo 2>/dev/null | sed 's/func //' | sort -u | paste -sd'|')
 pkgs=$(for f in $demo; do echo "./$(dirname $f)"; done | sort -u | tr '\n' ' ')
 echo "== demo tests: $run in $pkgs"
+if [ -z "${SEED_SKIP_CONFIRM:-}" ]; then
 go test -vet=off -count=1 -run "^($run)\$" $pkgs > /tmp/seedlog-$name-with.log 2>&1; with=$?
 # (no git stash: refs/stash is shared by all worktrees of a repository)
 git apply -R "$dst/patch.diff"
@@ -30,6 +31,10 @@ mkdir -p /tmp/seed-aside-$$; for f in $demo; do mv "$f" /tmp/seed-aside-$$/$(ech
 go test -vet=off -count=1 -timeout 25m ./... 2>&1 | grep -v "no test files" | tail -4 > /tmp/seedlog-$name-suite.log; suite=$(grep -c '^FAIL\|^---' /tmp/seedlog-$name-suite.log)
 for f in $demo; do mv /tmp/seed-aside-$$/$(echo $f | tr '/' '_') "$f"; done; rmdir /tmp/seed-aside-$$
 cat /tmp/seedlog-$name-suite.log
+else
+  with=$(python3 -c "import json;print(json.load(open('$dst/meta.json'))['demo_exit_with_change'])"); without=$(python3 -c "import json;print(json.load(open('$dst/meta.json'))['demo_exit_without_change'])"); suite=$(python3 -c "import json;print(json.load(open('$dst/meta.json'))['repo_suite_failures_with_change'])")
+  echo "== (confirmation taken from the earlier run: with=$with without=$without suite failures=$suite)"
+fi
 # mutated files for the overlay
 mut=/verif/.build/seed/$name; rm -rf "$mut"; mkdir -p "$mut"
 for f in $changed; do case "$f" in mocks/*) mkdir -p "$mut/mocks"; cp "$f" "$mut/mocks/";; *) cp "$f" "$mut/";; esac; done
